@@ -1086,6 +1086,8 @@ func fsm3(c *Ctx) {
 			e, pred := lf.v, lf.pred
 			switch {
 			case ir.IsNilConst(e):
+			case isEmptyMake(e):
+				// a fresh, empty, preallocated accumulator (`make([]T, 0, n)`) is as good as nil
 			case e == ssa.Value(acc):
 				// must come from the verdict-false edge only
 				if !ir.HoldsAt(verdict, false, pred) && pred != match.Block() {
@@ -2675,4 +2677,14 @@ func isContainerMap(t types.Type) bool {
 	}
 	n, isN := p.Elem().(*types.Named)
 	return isN && n.Obj().Name() == "Container"
+}
+
+// isEmptyMake: make([]T, 0, n) -- a fresh slice without elements.
+func isEmptyMake(v ssa.Value) bool {
+	ms, ok := v.(*ssa.MakeSlice)
+	if !ok {
+		return false
+	}
+	k, isK := ms.Len.(*ssa.Const)
+	return isK && k.Value != nil && k.Int64() == 0
 }
